@@ -9,7 +9,8 @@ TECHNIQUE = ('static analysis: who-may-write allow-list and increment-only '
              'shape of the flow counter, SQL aggregate check of the restart '
              'source, call-chain presence, argument provenance of flow '
              'numbers at every spawn site, aliasing check on proxy '
-             'construction, pairing of merge bookkeeping')
+             'construction, pairing of merge bookkeeping, guard dominance '
+             'of the flow-history scan and of the refusal to respawn')
 
 CLAUSES = (
     'Decided: the flow counter is written only by its initialiser (0), by '
@@ -20,7 +21,9 @@ CLAUSES = (
     'next parentless instances receive exactly the parent\'s flow numbers; a '
     'new proxy copies (does not alias) the flow set; merging updates the '
     'proxy, the data store and the DB rows and is skipped only for empty or '
-    'equal sets; a proxy\'s flow set is mutated only at the listed sites. '
+    'equal sets; a proxy\'s flow set is mutated only at the listed sites; '
+    'spawn_task refuses a task whose history in an overlapping flow is final '
+    'and complete, the history scan stopping only at a final row. '
     'Not decided: uniqueness over command/restart histories.')
 
 FM = 'flow_mgr'
@@ -203,8 +206,21 @@ def check(c):
         c.ob('C08.flow-set-writers', c.key(s.node, f) + f' [{s.kind}]',
              (fq, s.kind) in allow, c.where(s.node, f), f'{s.kind} in {fq}')
 
+    # ---- a task finished and complete in a flow is not re-run when that
+    # flow reaches it again (the rules are those of C02: the history lookup
+    # by flow intersection that stops only at a *final* row, and the refusal
+    # to spawn on a final + complete history)
+    from rules.C02 import finished_in_flow_rules
+    finished_in_flow_rules(c, 'C08.no-rerun', 'C08.no-rerun')
+
 
 VARIANTS = [
+    ('history-latest-submit-wins', 'cylc/flow/task_pool.py',
+     '''                if status in TASK_STATUSES_FINAL:
+                    # task finished
+                    break''', '''                if status in TASK_STATUSES_FINAL or _snum == submit_num:
+                    # task finished
+                    break''', 'C08.no-rerun'),
     ('counter-reset', 'cylc/flow/flow_mgr.py',
      '''        self.flows = self.db_mgr.pri_dao.select_workflow_flows(flow_nums)
         self._log()''',
